@@ -174,7 +174,9 @@ func validateStreams(env *Environment, errorSink *validation.ErrorSink) *Environ
 				}
 				return
 			}
-			self.VisitChildren(node, context)
+			// the step's type is not a stream itself: a stream nested inside it (e.g. in a
+			// type argument) is not a top-level sequence element
+			self.VisitChildren(node, node)
 		case *Stream:
 			if _, isProtocol := (context).(*ProtocolDefinition); !isProtocol {
 				errorSink.Add(validationError(node, "!streams can only be declared as top-level protocol sequence elements"))
